@@ -174,6 +174,38 @@ func bOrig(kind, variant int) any {
 	panic("no struct for kind")
 }
 
+// bOrigForeign is variant 1 of the kind with the mediaType field of a DIFFERENT manifest type in it,
+// as a struct has that was filled by unmarshalling a document of the sibling format.
+func bOrigForeign(kind int) any {
+	switch kind {
+	case kOCIImage:
+		m := bOrig(kind, 1).(v1.Manifest)
+		m.MediaType = mtD2Image
+		return m
+	case kOCIIndex:
+		m := bOrig(kind, 1).(v1.Index)
+		m.MediaType = mtD2List
+		return m
+	case kOCIArtifact:
+		m := bOrig(kind, 1).(v1.ArtifactManifest)
+		m.MediaType = mtOCIImage
+		return m
+	case kD2Image:
+		m := bOrig(kind, 1).(schema2.Manifest)
+		m.MediaType = mtOCIImage
+		return m
+	case kD2List:
+		m := bOrig(kind, 1).(schema2.ManifestList)
+		m.MediaType = mtOCIIndex
+		return m
+	case kSchema1:
+		m := bOrig(kind, 1).(schema1.Manifest)
+		m.MediaType = mtD2Image
+		return m
+	}
+	return nil
+}
+
 var c02EditKinds = []int{kOCIImage, kOCIIndex, kOCIArtifact, kD2Image, kD2List, kSchema1, kSignedFixture}
 
 func isDockerKind(kind int) bool { return kind == kD2Image || kind == kD2List }
@@ -381,6 +413,13 @@ var c02Ops = []c02Op{
 	}},
 	{"SetOrig(struct-1)", "SetOrig", func(kind int, m manifest.Manifest) error { return m.SetOrig(bOrig(kind, 1)) }},
 	{"SetOrig(struct-2,empty-mediaType)", "SetOrig", func(kind int, m manifest.Manifest) error { return m.SetOrig(bOrig(kind, 2)) }},
+	{"SetOrig(struct-1,foreign-mediaType)", "SetOrig", func(kind int, m manifest.Manifest) error {
+		o := bOrigForeign(kind)
+		if o == nil {
+			return fmt.Errorf("harness: no such struct for this kind")
+		}
+		return m.SetOrig(o)
+	}},
 	{"SetOrig(wrong-type)", "SetOrig", func(kind int, m manifest.Manifest) error {
 		if kind == kOCIImage {
 			return m.SetOrig(bOrig(kOCIIndex, 1))
@@ -775,7 +814,7 @@ func TestVerifC02Edits(t *testing.T) {
 		depth = 4
 	}
 	rec.Info("B.depth", depth)
-	rec.Rule(fmt.Sprintf("part B: program = manifest type (7) × constructor (%d: raw canonical / raw non-canonical with unknown member / struct / raw+struct same bytes / raw+struct other encoding / struct+descriptor preferring sha512 / struct+descriptor of the previous encoding as mod.WithDigestAlgo builds it / raw+sha512 descriptor / descriptor only) × every sequence of ≤%d calls from the type's alphabet of %d calls (SetAnnotation set/overwrite/delete/special characters, SetConfig ×2, SetLayers append/drop/reverse/nil, SetManifestList append/drop/reverse/empty, SetSubject sha256/sha512/nil, SetOrig struct-1/struct-2 without mediaType/wrong type), no pruning; equations judged after the last call of every program. ", len(c02Ctors), depth, len(c02Ops)) +
+	rec.Rule(fmt.Sprintf("part B: program = manifest type (7) × constructor (%d: raw canonical / raw non-canonical with unknown member / struct / raw+struct same bytes / raw+struct other encoding / struct+descriptor preferring sha512 / struct+descriptor of the previous encoding as mod.WithDigestAlgo builds it / raw+sha512 descriptor / descriptor only) × every sequence of ≤%d calls from the type's alphabet of %d calls (SetAnnotation set/overwrite/delete/special characters, SetConfig ×2, SetLayers append/drop/reverse/nil, SetManifestList append/drop/reverse/empty, SetSubject sha256/sha512/nil, SetOrig struct-1/struct-2 without mediaType/struct-1 carrying the mediaType of the sibling format/wrong type), no pruning; equations judged after the last call of every program. ", len(c02Ctors), depth, len(c02Ops)) +
 		"states = distinct (type, constructor, IsSet, digest algorithm, RawBody) reached, transitions = distinct (state, call) pairs executed. " +
 		"distinct_nontrivial = distinct programs whose last call returned nil and changed the serialisation")
 	h := &c02Edit{rec: rec, push: newC02Fetch(rec), states: map[string]bool{}, trans: map[string]bool{}, pushedS: map[string]bool{}}
